@@ -1,10 +1,10 @@
 SPECIFICATION Spec
 CONSTANTS
-  NMsgs = 4
-  Limit = 1
-  MaxFaults = 2
-  FlakyPeer = FALSE
-  ResetOnConnect = FALSE
+  NMsgs = 3
+  Limit = 2
+  MaxFaults = 1
+  FlakyPeer = TRUE
+  ResetOnConnect = TRUE
 INVARIANTS Subsequence NotBoth Accounted
 PROPERTY Finishes
 CHECK_DEADLOCK FALSE
